@@ -18,7 +18,7 @@ from vx.rustcut import CutError, code_mask, match_close, loop_headers
 from vx.units.c20len import expand, rewrite_sink, SRC, EXP
 
 PROPS = ['C20']
-RLIMIT = 60
+RLIMIT = 200
 VERUS_ARGS = ['--num-threads', '16']
 
 # ----------------------------------------------------------------------------------------------------------------------
